@@ -1,12 +1,17 @@
 # -*- coding: utf-8 -*-
 import codecs
 import sys
+import threading
 import warnings
 import re
 from contextlib import contextmanager
 
 from parso.normalizer import Normalizer, NormalizerConfig, Issue, Rule
 from parso.python.tokenize import _get_token_collection
+
+# warnings.catch_warnings() is not thread safe: when two threads use it at the
+# same time, the warning filters of the whole process can stay modified.
+_catch_warnings_lock = threading.Lock()
 
 _BLOCK_STMTS = ('if_stmt', 'while_stmt', 'for_stmt', 'try_stmt', 'with_stmt')
 _STAR_EXPR_PARENTS = ('testlist_star_expr', 'testlist_comp', 'exprlist')
@@ -647,7 +652,7 @@ class _StringChecks(SyntaxRule):
                 func = codecs.unicode_escape_decode
 
             try:
-                with warnings.catch_warnings():
+                with _catch_warnings_lock, warnings.catch_warnings():
                     # The warnings from parsing strings are not relevant.
                     warnings.filterwarnings('ignore')
                     func(payload)
